@@ -7,7 +7,7 @@ SlotJ(s) == IF s = <<>> THEN <<>>
             ELSE <<[share |-> s[1].share, mode |-> s[1].mode, pax |-> s[1].pax,
                     proof |-> <<s[1].proof.ax, s[1].proof.line, s[1].proof.pos>>, start |-> s[1].start]>>
 Out(k) == [k |-> K, cls |-> k.cls, mut |-> k.mut,
-           junk |-> SeqOfSet(k.junk),
+           junk |-> SeqOfSet(k.junk), jkind |-> k.jkind, jline |-> k.jline,
            axis |-> k.f.axis, index |-> k.f.index,
            slots |-> [s \in 1..Len(k.f.slots) |-> SlotJ(k.f.slots[s])],
            baxis |-> k.baxis, bindex |-> k.bindex,
